@@ -18,6 +18,7 @@ Definition c_sp : N := 32.
 Definition E_FUEL : N := 7.
 
 Definition is_nil {A} (l : list A) : bool := match l with [] => true | _ => false end.
+Definition is_none {A} (o : option A) : bool := match o with None => true | Some _ => false end.
 
 (** [BytesCow::replace(remove, replacement)] (utils/src/lib.rs): a start after the end is
     moved to the end; a range that ends after the buffer panics ([copy_within]). *)
@@ -429,7 +430,7 @@ Fixpoint page_history (guard : bool) (rewrite : bytes -> bytes -> outcome bytes)
 
 (** the value of the k-th draw of the generator in the correspondence run: 24 symbolic
     "bytes" 1000k .. 1000k+23 (outside the byte range) *)
-Definition sym_nonce (k : nat) : bytes := map (fun i => N.of_nat (1000 * k + i)) (seq 0 24).
+Definition sym_nonce (k : nat) : bytes := map (fun i => 1000 * N.of_nat k + N.of_nat i) (seq 0 24).
 
 (** ---- Specification of the Package chain: the headers the property demands ----
     [hist] is the history of [add_mut] calls that built the CSP rule set; the rule is chosen by the
@@ -573,7 +574,8 @@ Definition find_source (hs : list chandler) (p : bytes) : option chandler :=
 Definition conn_compute (guard : bool) (rewrite : bytes -> bytes -> outcome bytes) (hs : list chandler)
     (p : bytes) (unsafe : bool) (m : N) (k : nat) : outcome (creply * bool * nat) :=
   if unsafe then Ok (mkCRep 400 [] ERR_BODY, false, k) else
-  let missing := if existsb ch_fs hs && negb ((m =? 0) || (m =? 1)) then 405 else 404 in
+  (* no file path at all when the decoded bytes are not UTF-8: 404 whatever the method *)
+  let missing := if existsb ch_fs hs && negb ((m =? 0) || (m =? 1)) && negb (is_none (PathSan.decoded_for_use p)) then 405 else 404 in
   match (if existsb ch_fs hs && negb ((m =? 0) || (m =? 1))
          then find (fun h => negb (ch_fs h) && beq (ch_path h) p) hs else find_source hs p) with
   | None => Ok (mkCRep missing [] ERR_BODY, true, k)   (* [handle_request] wraps its error in [FatResponse::cache] *)
@@ -636,15 +638,15 @@ Fixpoint conn_run (guard : bool) (rewrite : bytes -> bytes -> outcome bytes) (ch
     prints byte strings as templates: (L (B lit) (L (N k)) (B lit) ...). *)
 Fixpoint tb_go (skip : nat) (s lit : bytes) : list xval :=
   match s with
-  | [] => [XB (rev lit)]
+  | [] => [XB (rev_append lit [])]
   | c :: r =>
       match skip with
       | S k => tb_go k r lit
       | O =>
           if c <? 256 then tb_go O r (c :: lit)
           else if beq (firstn 24 s) (sym_nonce (N.to_nat (c / 1000)))
-               then XB (rev lit) :: XL [XN (c / 1000)] :: tb_go 23 r []
-               else XB (rev lit) :: XN c :: tb_go O r []
+               then XB (rev_append lit []) :: XL [XN (c / 1000)] :: tb_go 23 r []
+               else XB (rev_append lit []) :: XN c :: tb_go O r []
       end
   end.
 Definition x_tb (s : bytes) : xval := XL (tb_go O s []).
